@@ -31,6 +31,7 @@ muts = {
  'C11-N4-forgets-first': ('pdf/src/object/stream.rs', 'let start = first.checked_add(self.offsets[index]).ok_or(PdfError::Invalid)?;', 'let start = self.offsets[index];', ['C11']),
  'C11-N5-length-plus-one': ('pdf/src/parser/mod.rs', 'Some(&Primitive::Reference(reference)) => t!(t!(r.resolve_flags(reference, ParseFlags::INTEGER, 1)).as_usize()),', 'Some(&Primitive::Reference(reference)) => t!(t!(r.resolve_flags(reference, ParseFlags::INTEGER, 1)).as_usize()) + 1,', ['C11']),
  'C11-N6-header-offset-as-u32': ('pdf/src/object/stream.rs', 'let offset = lexer.next()?.to::<usize>()?;', 'let offset = lexer.next()?.to::<u8>()? as usize;', ['C11']),
+ 'C11-N7-header-offset-as-u16': ('pdf/src/object/stream.rs', 'let offset = lexer.next()?.to::<usize>()?;', 'let offset = lexer.next()?.to::<u16>()? as usize;', ['C11']),
  'C11-R1-preserving-rewrite': ('pdf/src/object/stream.rs', '''        let end = if index == self.offsets.len() - 1 {
             data.len()
         } else {
